@@ -13,7 +13,7 @@ import (
 	"github.com/go-shiori/dom"
 )
 
-var govcC08Kinds = []string{"img", "figure", "video", "youtube", "twitter", "table"}
+var govcC08Kinds = []string{"img", "figure", "video", "youtube", "twitter", "table", "vimeo", "tweetframe"}
 
 var govcC08Prose = strings.Fields("the committee reported that several members of the expedition had returned from " +
 	"the northern valley with detailed notes about weather patterns and local harvests which were later published in " +
@@ -67,6 +67,10 @@ func (g *govcC08Gen) media(kind string) govcC08Item {
 		it.html = `<video controls width="640" height="360"><source src="/media/` + id + `.mp4" type="video/mp4"></video>`
 	case "youtube":
 		it.html = `<iframe src="https://www.youtube.com/embed/` + id + `" width="560" height="315"></iframe>`
+	case "vimeo":
+		it.html = `<iframe src="https://player.vimeo.com/video/` + id + `?color=fff" width="560" height="315"></iframe>`
+	case "tweetframe":
+		it.html = `<iframe src="https://platform.twitter.com/embed/index.html" data-tweet-id="` + id + `"></iframe>`
 	case "twitter":
 		it.html = `<blockquote class="twitter-tweet"><p>Short status update about the valley</p>&mdash; Some User (@someuser) <a href="https://twitter.com/someuser/status/` + id + `">June 1, 2020</a></blockquote>`
 	case "table":
@@ -99,7 +103,7 @@ func TestGovcMediaReplay(t *testing.T) {
 	mediaKept, mediaDropped, leadUsed := 0, 0, 0
 	defer func() {
 		fmt.Printf("GOVC-CASES evaluations=%d distinct_nontrivial=%d rule=%s\n", evals, nontrivial,
-			fmt.Sprintf("all sequences of 2..4 text blocks over {66-word prose paragraph, short link-only line} x media scheme {all six kinds after every text (3 rotations), one uniform kind (6) with and without a leading media element before any text, kinds rotating per slot (6)}; unique tokens per text block and unique id per media element; oracle uses the OBSERVED retention of the nearest preceding text block; non-trivial = a text block was retained and the document has media (measured: %d media kept after retained text, %d media dropped after dropped/no text, lead-image exception used in %d documents)", mediaKept, mediaDropped, leadUsed))
+			fmt.Sprintf("all sequences of 2..4 text blocks over {66-word prose paragraph, short link-only line} x media scheme {all eight kinds after every text (3 rotations), one uniform kind (8) with and without a leading media element before any text, kinds rotating per slot (8)}; unique tokens per text block and unique id per media element; oracle uses the OBSERVED retention of the nearest preceding text block; non-trivial = a text block was retained and the document has media (measured: %d media kept after retained text, %d media dropped after dropped/no text, lead-image exception used in %d documents)", mediaKept, mediaDropped, leadUsed))
 	}()
 
 	type scheme struct {
